@@ -153,6 +153,76 @@ impl<'tcx, 'b> Cx<'tcx, 'b> {
               peeled = *inner;
             }
             let mut sj = String::new();
+            // arrays / slices of tuples or structs (lookup tables): element layout
+            let elem_ty = match peeled.kind() {
+              ty::Array(e, _) => Some(*e),
+              ty::Slice(e) => Some(*e),
+              _ => None,
+            };
+            if let Some(et) = elem_ty {
+              if let Ok(el) = self.tcx.layout_of(self.env.as_query_input(et)) {
+                let mut fs: Vec<String> = Vec::new();
+                let mut name = String::new();
+                let mut ok = false;
+                match et.kind() {
+                  ty::Tuple(tys) => {
+                    ok = true;
+                    for (i, fty) in tys.iter().enumerate() {
+                      let fsize = self.tcx.layout_of(self.env.as_query_input(fty)).map(|l| l.size.bytes() as i64).unwrap_or(-1);
+                      fs.push(format!(
+                        "{{\"name\":\"{}\",\"offset\":{},\"size\":{},\"ty\":{}}}",
+                        i,
+                        el.fields.offset(i).bytes(),
+                        fsize,
+                        esc(&ty_str(fty))
+                      ));
+                    }
+                  }
+                  ty::Adt(adt, args) if adt.is_struct() => {
+                    ok = true;
+                    name = self.tcx.def_path_str(adt.did());
+                    for (i, f) in adt.non_enum_variant().fields.iter().enumerate() {
+                      let fty = f.ty(self.tcx, args);
+                      let fsize = self.tcx.layout_of(self.env.as_query_input(fty)).map(|l| l.size.bytes() as i64).unwrap_or(-1);
+                      fs.push(format!(
+                        "{{\"name\":{},\"offset\":{},\"size\":{},\"ty\":{}}}",
+                        esc(&f.name.to_string()),
+                        el.fields.offset(i).bytes(),
+                        fsize,
+                        esc(&ty_str(fty))
+                      ));
+                    }
+                  }
+                  _ => {}
+                }
+                if ok {
+                  sj = format!(
+                    ",\"elem\":{{\"size\":{},\"name\":{},\"fields\":[{}]}}",
+                    el.size.bytes(),
+                    esc(&name),
+                    fs.join(",")
+                  );
+                }
+              }
+            }
+            if let ty::Tuple(tys) = peeled.kind() {
+              if let Ok(layout) = self.tcx.layout_of(self.env.as_query_input(peeled)) {
+                let mut fs: Vec<String> = Vec::new();
+                for (i, fty) in tys.iter().enumerate() {
+                  let fsize = self.tcx.layout_of(self.env.as_query_input(fty)).map(|l| l.size.bytes() as i64).unwrap_or(-1);
+                  fs.push(format!(
+                    "{{\"name\":\"{}\",\"offset\":{},\"size\":{},\"ty\":{}}}",
+                    i,
+                    layout.fields.offset(i).bytes(),
+                    fsize,
+                    esc(&ty_str(fty))
+                  ));
+                }
+                if !fs.is_empty() {
+                  sj = format!(",\"struct\":{{\"name\":\"\",\"fields\":[{}]}}", fs.join(","));
+                }
+              }
+            }
             if let ty::Adt(adt, args) = peeled.kind() {
               if adt.is_struct() {
                 if let Ok(layout) = self.tcx.layout_of(self.env.as_query_input(peeled)) {
